@@ -122,12 +122,18 @@ impl SymbolTable {
     pub fn resolve(&mut self, name: &str, depth: usize) -> Option<Rc<Symbol>> {
         if let Some(symbols) = self.store.get(name) {
             for symbol in symbols.iter().rev() {
-                if symbol.depth <= depth {
+                // A free symbol keeps the depth of the captured binding, which
+                // says nothing about its visibility in this table.
+                if symbol.depth <= depth || symbol.scope == SymbolScope::Free {
                     return Some(Rc::clone(symbol));
                 }
             }
-        } else if let Some(outer) = &mut self.outer {
-            if let Some(obj) = outer.resolve(name, depth) {
+        }
+        // Not visible in this table: look in the enclosing one. Blocks that
+        // have ended were already forgotten there (see 'leave_block'), so
+        // every symbol it still holds is visible from the nested function.
+        if let Some(outer) = &mut self.outer {
+            if let Some(obj) = outer.resolve(name, usize::MAX) {
                 if matches!(
                     obj.scope,
                     SymbolScope::Global | SymbolScope::BuiltinFn | SymbolScope::BuiltinVar
@@ -139,6 +145,17 @@ impl SymbolTable {
             }
         }
         None
+    }
+
+    // Forget the symbols that were defined deeper than 'depth'. Called when a
+    // block ends so that its bindings are neither visible to later sibling
+    // blocks nor able to hide bindings of enclosing scopes.
+    pub fn leave_block(&mut self, depth: usize) {
+        self.store.retain(|_, symbols| {
+            // captured (free) symbols belong to the whole function
+            symbols.retain(|s| s.depth <= depth || s.scope == SymbolScope::Free);
+            !symbols.is_empty()
+        });
     }
 
     pub fn define_builtin_fn(&mut self, index: usize, name: &str) -> Rc<Symbol> {
